@@ -181,8 +181,11 @@ def select_combined(ab1: int, ts0: int, ts1: int, scu: List[bool], scp: List[boo
     """
     pre: 0 <= ab1 <= 1 and 0 <= ts0 <= 4 and 0 <= ts1 <= 4
     pre: len(scu) == 2 and len(scp) == 2
+    pre: allow or shard("ts", -1) >= 0
     post: _ == True
     """
+    # (allow_conversion=False without a transfer syntax to match is a combination no caller in pynetdicom uses -
+    #  send_c_store always names the data set's syntax - and "an exact match" is undefined for it: not judged)
     ab0 = shard("ab0", 0)
     cid_sel = -1
     t = shard("ts", -1)
